@@ -2,9 +2,9 @@ INIT Init
 CONSTANTS
   MaxP = 3
   Deviations = {}
-  KindSet <- AllKinds
-  InputKinds <- BothInputs
-  MaxPos = 4
+  KindSet <- DocKinds
+  InputKinds <- NamedOnly
+  MaxPos = 0
 CHECK_DEADLOCK FALSE
 NEXT NoNext
-INVARIANT EmitScn
+INVARIANT EmitDoc
